@@ -25,25 +25,12 @@ def parser_for(stack):
     return PARSERS[stack]
 
 
-class Timeout(Exception):
-    pass
-
-
-def _alarm(signum, frame):
-    raise Timeout()
+from core import Timeout, time_limit  # noqa: E402
 
 
 def with_timeout(f, seconds=5):
     """Run f() with a wall-clock limit (a hang becomes the observation ('EXC','Timeout'))."""
-    old = signal.signal(signal.SIGALRM, _alarm)
-    signal.setitimer(signal.ITIMER_REAL, seconds)
-    try:
-        return impl_outcome(f)
-    except Timeout:
-        return ('EXC', 'Timeout')
-    finally:
-        signal.setitimer(signal.ITIMER_REAL, 0)
-        signal.signal(signal.SIGALRM, old)
+    return impl_outcome(f, limit=seconds)
 
 
 def obs_bits(out):
